@@ -6,7 +6,9 @@ import (
 	"time"
 
 	"github.com/LiskHQ/lisk-engine/pkg/blockchain"
+	"github.com/LiskHQ/lisk-engine/pkg/codec"
 	"github.com/LiskHQ/lisk-engine/pkg/consensus"
+	"github.com/LiskHQ/lisk-engine/pkg/trie/rmt"
 	"github.com/LiskHQ/lisk-engine/pkg/p2p"
 
 	"verif/sim/simkit"
@@ -27,6 +29,8 @@ type Adversary struct {
 	Stats    map[string]int
 	Enabled  bool
 	lastSlot int
+	// PayloadAttacks: blocks whose payload exceeds the size limit and blocks carrying a statically invalid transaction
+	PayloadAttacks bool
 }
 
 type heldBlock struct {
@@ -122,6 +126,7 @@ func (a *Adversary) forgeOnTip() *blockchain.Block {
 		// carry a truthful maxHeightGenerated and are accepted; deviations are made deliberately afterwards. Each head
 		// has its own record: two heads on two branches equivocate.)
 		before := n.Exec.VerifQueueLen()
+		n.Pool.VerifReorg() // the shadow has no tick of its own: promote its pooled transactions before generating
 		n.Gen.VerifForge()
 		if n.Exec.VerifQueueLen() == before {
 			return
@@ -168,13 +173,51 @@ func (a *Adversary) act() {
 	if slot == a.lastSlot {
 		return
 	}
+	// payload rules (C03): now and then the adversary's generator runs with four times the chain's payload limit - when
+	// its pool holds enough, the block it builds is valid in everything but the size of its payload
+	oversize := false
+	if a.PayloadAttacks && simkit.Chance(t, "byzoversize", 1, 4) {
+		total := 0
+		for _, tx := range a.Shadow.Pool.GetProcessable() {
+			total += tx.Size()
+		}
+		oversize = total > int(a.W.P.MaxTxSize)
+		if oversize {
+			simkit.Probe("byz_pool_exceeds_payload_limit")
+		}
+	}
+	if oversize {
+		a.Shadow.GenCfg.Genesis.MaxTransactionsSize = 4 * a.W.P.MaxTxSize
+	}
 	b := a.forgeOnTip()
+	a.Shadow.GenCfg.Genesis.MaxTransactionsSize = a.W.P.MaxTxSize
 	if b == nil {
 		return
 	}
 	a.lastSlot = slot
 	a.Stats["byz_blocks"]++
 	honest := a.honestNodes()
+	if size := payloadSize(b); size > int(a.W.P.MaxTxSize) {
+		a.record(b)
+		a.sendToAll(b, 0)
+		a.Stats["oversized_payload"]++
+		simkit.Fault("byz_oversized_payload")
+		return
+	}
+	if len(b.Transactions) > 0 {
+		simkit.Probe("byz_block_carries_transactions")
+	}
+	if a.PayloadAttacks && len(b.Transactions) > 0 && simkit.Chance(t, "byzstatic", 1, 3) {
+		if b2 := a.staticallyInvalidTwin(b); b2 != nil {
+			// the honest nodes get the twin only; the shadow keeps the valid block
+			a.record(b)
+			a.record(b2)
+			a.sendToAll(b2, 0)
+			a.Stats["statically_invalid_transaction"]++
+			simkit.Fault("byz_statically_invalid_transaction")
+			return
+		}
+	}
 	switch simkit.Int(t, "byzstrategy", 0, 5) {
 	case 0: // behave
 		a.record(b)
@@ -224,6 +267,61 @@ func (a *Adversary) act() {
 		a.sendToAll(b, time.Duration(simkit.Int(t, "late", 1, 3))*a.W.BlockTime)
 		simkit.Fault("byz_late_send")
 	}
+}
+
+func payloadSize(b *blockchain.Block) int {
+	size := 0
+	for _, tx := range b.Transactions {
+		size += tx.Size()
+	}
+	return size
+}
+
+// staticallyInvalidTwin returns a copy of the block the shadow just generated and applied in which one transaction has
+// lost its signatures (or carries one of 63 bytes): the application of the simulation does not look at signatures, so the
+// twin executes exactly like the original; transaction root and event root (events carry the transaction id as a topic)
+// are recomputed and the header is signed again. Everything about the twin is valid except that one of its
+// transactions is not a statically valid transaction.
+func (a *Adversary) staticallyInvalidTwin(b *blockchain.Block) *blockchain.Block {
+	t := a.W.T
+	b2 := cloneBlock(b)
+	tx := b2.Transactions[simkit.Int(t, "statictx", 0, len(b2.Transactions)-1)]
+	oldID := append([]byte(nil), tx.ID...)
+	if simkit.Bool(t, "staticnosig") {
+		tx.Signatures = []codec.Hex{}
+	} else {
+		tx.Signatures = []codec.Hex{bytes.Repeat([]byte{7}, 63)}
+	}
+	tx.Init()
+	if tx.Validate() == nil || bytes.Equal(oldID, tx.ID) {
+		return nil
+	}
+	ids := make([][]byte, len(b2.Transactions))
+	for i, x := range b2.Transactions {
+		ids[i] = x.ID
+	}
+	b2.Header.TransactionRoot = rmt.CalculateRoot(ids)
+	events, err := a.Shadow.Chain.DataAccess().GetEvents(b.Header.Height)
+	if err != nil {
+		return nil
+	}
+	for _, e := range events {
+		for i, topic := range e.Topics {
+			if bytes.Equal(topic, oldID) {
+				e.Topics[i] = append([]byte(nil), tx.ID...)
+			}
+		}
+	}
+	root, err := blockchain.CalculateEventRoot(events)
+	if err != nil {
+		return nil
+	}
+	b2.Header.EventRoot = root
+	if !a.resign(b2) {
+		return nil
+	}
+	b2.Init()
+	return b2
 }
 
 func (a *Adversary) record(b *blockchain.Block) {
